@@ -95,7 +95,7 @@ func c08Check(c ndCase) error {
 	if !judged {
 		return nil
 	}
-	for _, cfg := range parseCfgs() {
+	for _, cfg := range parseCfgsSib(c.In) {
 		in := append([]byte(nil), c.In...)
 		pj, err := parseWith(cfg, in, true)
 		if (err == nil) != want {
@@ -143,7 +143,7 @@ func c17NDCheck(c ndCase) error {
 
 var c17NDRun = register("C17", "ndjson", c17NDCheck)
 
-var ndLineTemplates = []string{`[]`, `{}`, `[1]`, `{"a":1}`, `["x","y"]`, `{"k":"v\n"}`, `[[],{}]`, `[true,false,null]`, `{"a":{"b":[1,2,3]}}`, `[1.5e3,-2]`, `"scalar"`, `1`, `[1,]`, `{"a":}`, `[1] [2]`, `{"a":1}{"b":2}`, `[`, `]`, `[1,`, `2]`, `tru`, `["é😀"]`}
+var ndLineTemplates = []string{`[]`, `{}`, `[1]`, `{"a":1}`, `["x","y"]`, `{"k":"v\n"}`, `[[],{}]`, `[true,false,null]`, `{"a":{"b":[1,2,3]}}`, `[1.5e3,-2]`, `"scalar"`, `1`, `[1,]`, `{"a":}`, `[1] [2]`, `{"a":1}{"b":2}`, `[`, `]`, `[1,`, `2]`, `tru`, `["é😀"]`, `[[1,2]`, `{"a":{"b":1}`, `[{"a":[1]}`, `[1]]`, `{"a":1}}`}
 
 func genNDInput(t *rapid.T) ([]byte, string) {
 	var b bytes.Buffer
@@ -216,6 +216,9 @@ func genNDInput(t *rapid.T) ([]byte, string) {
 		bad := -1
 		if rapid.IntRange(0, 3).Draw(t, "onebad") == 0 {
 			bad = rapid.IntRange(0, n-1).Draw(t, "badline")
+			if rapid.IntRange(0, 2).Draw(t, "badlast") == 0 {
+				bad = n - 1 // the verdict of the last line is the last thing stage 2 decides
+			}
 		}
 		blankEvery := rapid.IntRange(0, 50).Draw(t, "blankEvery")
 		lineEnd := []string{"\n", "\n", "\r\n", " \n", "\t\r\n"}[rapid.IntRange(0, 4).Draw(t, "lineend")]
